@@ -81,7 +81,7 @@ fn int_enc(v: i128, w: u8) -> Enc {
 
 pub fn explore(ex: &Ex) {
     let mut ints: std::collections::BTreeSet<i128> = gen::int_lattice().into_iter().collect();
-    let win: i128 = ex.pick(40, 300, 70000);
+    let win: i128 = ex.pick(40, 3000, 70000);
     for v in -win..=win {
         ints.insert(v);
     }
